@@ -499,7 +499,7 @@ pub fn run(ctx: &Ctx) {
     ctx.exhaustive("hdr7_packet", 8 << 24, hdr7_packet, |i| json!(format!("{:07x}", i)));
     ctx.exhaustive("hdr7_connless", 256 * 64, hdr7_connless, |i| json!(format!("{:04x}", i)));
     ctx.exhaustive("hdr7_chunk", 65536 + (1 << 24), hdr7_chunk, |i| json!(format!("{:06x}", i)));
-    ctx.prop("packets/0.6", ctx.n(600_000, 12_000_000), || pcase_strategy(false), |c: &PCase| check_packet(c, false));
-    ctx.prop("packets/0.7", ctx.n(600_000, 12_000_000), || pcase_strategy(true), |c: &PCase| check_packet(c, true));
+    ctx.prop("packets/0.6", ctx.n(600_000, 60_000_000), || pcase_strategy(false), |c: &PCase| check_packet(c, false));
+    ctx.prop("packets/0.7", ctx.n(600_000, 60_000_000), || pcase_strategy(true), |c: &PCase| check_packet(c, true));
     ctx.exhaustive("every_length", 1398 * 3 * 4, every_length, |i| json!({"is7": i & 1 == 1, "kind": (i >> 2) % 3, "len": (i >> 2) / 3}));
 }
